@@ -105,7 +105,21 @@ def p1_p2(chk, repo, tier):
                         if mf:
                             chk.info("P1", key, c.where, "matrix-free component (checked by C02-S3)")
                             continue
-                        if hit:
+                        # a setup loop that treats its first iteration specially registers the
+                        # first and the generic surface separately: each needs its own record
+                        variants = [x for x in sv.outputs if tmpl_match(o, x)]
+                        if "[0]" in o:
+                            variants = [x for x in variants if x == o]
+                        else:
+                            # the generic compute run describes the first surface only when its
+                            # option valuation, renamed, agrees with what setup assumed for it
+                            ren = {k.replace("[i]", "[0]"): v for k, v in rc.sigma.items()}
+                            if any(sv.sigma.get(k, v) != v for k, v in ren.items()):
+                                variants = [x for x in variants if "[0]" not in x]
+                        uncovered = [x for x in variants if not any(p[0] == x and tmpl_match(p[1], nm) for p in pairs)] if len(variants) > 1 else []
+                        if hit and uncovered:
+                            chk.violation("P1", key, c.where, "%s of %s depends on input '%s' under %s but setup declares the pair only for %s, not for %s (iteration-dependent declaration)" % (evm, o, nm, sig_txt(sig), sorted(set(variants) - set(uncovered)), sorted(uncovered)))
+                        elif hit:
                             chk.ok("P1", key, c.where, "declared")
                             exact = [h for h in hit if h[0] == o and h[1] == nm]
                             for h in exact or hit:
@@ -275,6 +289,23 @@ def run(chk, repo, tier):
     p6(chk, repo, tier)
     p6b(chk, repo, tier)
     p7(chk, repo, tier)
+    p10(chk, repo, tier)
+    p11(chk, repo, tier)
+
+
+def p11(chk, repo, tier):
+    """A block assigned only on one input-dependent branch is stale on the other (shared with C03-R8)."""
+    from .c03 import r8
+
+    r8(chk, repo, all_models(repo, chk), rule="P11")
+
+
+def p10(chk, repo, tier):
+    """A Jacobian block of surface k computed with a quantity of another surface."""
+    from .c19 import o2
+
+    o2(chk, repo, all_models(repo, chk), rule="P10", methods=set(LIN_METHODS) | {"setup"}, min_decided=8,
+       text="in setup and in the linearisation methods, a value derived from the element of one loop over surfaces/sections (a size, an input view, a name) is not used in a later loop over the same list without being re-derived there: otherwise every surface's Jacobian block is built from the last surface's value")
 
 
 # --------------------------------------------------------------------------- P6b
